@@ -11,7 +11,7 @@
 From CB Require Import Spec Unstable.
 From Coq Require Import Permutation.
 From CBP Require Import Step RefDefs C02Lemmas Arith AbsLemmas AllOps FaultDefs FaultPrims FaultDropA FaultDropB FaultUser
-     Iters DrainP ExtendIo CmpHash Ctors PhysMoves UnstableEq Access Views RefTruncate FillExtend FaultFrame SpecCorollaries.
+     Iters DrainP ExtendIo CmpHash Ctors PhysMoves MoreOps UnstableEq Access Views RefTruncate FillExtend FaultFrame SpecCorollaries.
 
 
 Theorem C05_truncate_back :
@@ -33,6 +33,16 @@ Theorem C05_drop_buffer :
   fault_safe (ONew) FDrop.
 Proof. exact (new_fault). Qed.
 Print Assumptions C05_drop_buffer.
+
+Theorem C05_boxed :
+  fault_safe (OBoxed) FDrop.
+Proof. exact (boxed_fault). Qed.
+Print Assumptions C05_boxed.
+
+Theorem C05_default :
+  fault_safe (ODefault) FDrop.
+Proof. exact (default_fault). Qed.
+Print Assumptions C05_default.
 
 Theorem C05_into_iter :
   forall script, fault_safe (OIntoIter script) FDrop.
